@@ -61,18 +61,26 @@ class SampleWorld:
         aggs = list(_bs(self.f, R, s, "TropicalSampleResult"))
         from .common import built_structs
         mds = list(built_structs(self.f, R, s, "Metadata"))
-        if len(aggs) != 1 or len(mds) != 1:
-            raise RoleLost("TropicalSampleResult / Metadata aggregates in sample")
+        if len(aggs) < 1 or len(mds) < 1:
+            from ..roles import builds_adt
+            raise RoleLost("TropicalSampleResult / Metadata aggregates in sample", wanted=builds_adt("TropicalSampleResult", "Metadata"))
 
-        def producer(rv, field):
+        def producer1(rv, field):
             op = rv["ops"][rv["fields"].index(field)]
-            t = v.call_term(v.root(op))
+            t = v.call_term(v.deep_root(op))
             return R.body_of_callee(t.get("callee")) if t is not None else None
 
-        roles["momenta"] = producer(aggs[0][2]["rv"], "loop_momenta")
-        roles["vpoly"] = producer(aggs[0][2]["rv"], "v")
-        roles["lmatrix"] = producer(mds[0][2]["rv"], "l_matrix")
-        roles["gauss"] = producer(mds[0][2]["rv"], "q_vectors")
+        def producer(sts, field):
+            """The same producing kernel on every path that builds the struct (an early exit without metadata builds the result twice)."""
+            ps = [producer1(st[2]["rv"], field) for st in sts]
+            if any(p is not ps[0] for p in ps):
+                raise RoleLost("the %d aggregates that build the result disagree on the producer of `%s`" % (len(sts), field))
+            return ps[0]
+
+        roles["momenta"] = producer(aggs, "loop_momenta")
+        roles["vpoly"] = producer(aggs, "v")
+        roles["lmatrix"] = producer(mds, "l_matrix")
+        roles["gauss"] = producer(mds, "q_vectors")
         # sector: producer of the Feynman parameters handed to the L-matrix kernel
         roles["sector"] = None
         for bi, t, cb in R.local_callees(s):
@@ -83,8 +91,8 @@ class SampleWorld:
         for k in ("gauss", "sector"):
             if roles[k] is None:
                 raise RoleLost("kernel role `%s` (no local producer found)" % k)
-        roles["uvec"] = producer(mds[0][2]["rv"], "u_vectors")
-        roles["shift"] = producer(mds[0][2]["rv"], "shift")
+        roles["uvec"] = producer(mds, "u_vectors")
+        roles["shift"] = producer(mds, "shift")
         for k in ("lmatrix", "vpoly", "uvec"):
             if roles[k] is None:
                 raise RoleLost("kernel role `%s` (no local producer found)" % k)
